@@ -34,7 +34,7 @@ ASSUMPTIONS = [
 ]
 CHUNK = 1
 
-BASES = ["rydberg", "rydberg_local", "dmm", "raman", "xy", "mixed"]
+BASES = ["rydberg", "rydberg_local", "dmm", "raman", "xy", "xy_idle", "mixed"]
 
 
 def _noises():
@@ -86,6 +86,10 @@ def _spec(basis):
         spec["basis"] = "raman"
     elif basis == "xy":
         spec["basis"] = "xy"
+    elif basis == "xy_idle":
+        # no drive at all: the XY exchange still acts during the idle time (visible from an initial excitation)
+        spec["basis"] = "xy"
+        spec["pulses"] = [{"amp": ["const", 60, 0.0], "det": ["const", 60, 0.0], "phase": 0.0}]
     elif basis == "mixed":
         spec["basis"] = "mixed"
         spec["pulses"] = p + [dict(p[0], ch="ch2")]
@@ -131,6 +135,15 @@ def run_case(case):
     ev = [0.5, 1.0]
     obs = [mod.Occupation(evaluation_times=ev), mod.CorrelationMatrix(evaluation_times=ev), mod.Energy(evaluation_times=ev)]
     ckw = {}
+    cfg_init = None
+    if basis == "xy_idle":
+        cfg_init = "product:10"
+        st_cls = sv.StateVector if backend == "sv" else m.MPS
+        eig = ("r", "g") if backend == "sv" else ("u", "d")
+        try:
+            ckw["initial_state"] = st_cls.from_state_amplitudes(eigenstates=("r", "g"), amplitudes={"rg": 1.0}) if backend == "sv" else runner.mps_initial_state(2, "product:10")
+        except Exception:
+            pass
     if nm is not None and not dev:
         ckw["noise_model"] = nm
     if dev:
@@ -156,21 +169,23 @@ def run_case(case):
     lind = nz in ("relaxation", "dephasing", "hyperfine_dephasing", "depolarizing", "eff_noise", "leakage", "relaxation+dephasing", "SPAM+relaxation")
     must_refuse = (
         basis in ("raman", "mixed")
-        or (backend == "sv" and (basis == "xy" or nz == "leakage"))
+        or (backend == "sv" and (basis in ("xy", "xy_idle") or nz == "leakage"))
         or (solver == "dmrg" and nz != "none")
     )
     if res is None:
         # refusing is always allowed by the property; but a plain noiseless rydberg run must work
-        if nz == "none" and basis in ("rydberg", "rydberg_local", "dmm") or (nz == "none" and basis == "xy" and backend == "mps"):
+        if nz == "none" and basis in ("rydberg", "rydberg_local", "dmm") or (nz == "none" and basis in ("xy", "xy_idle") and backend == "mps" and solver != "dmrg"):
             return result(False, sig=f"refuses-supported|{backend}|{solver}|{basis}", msg=f"{label}: raised {outcome[1]} although the combination is documented as supported", outcome=outcome)
         return result(True, outcome=outcome, nontrivial=must_refuse or nz != "none")
     if must_refuse:
-        why = "basis" if basis in ("raman", "mixed", "xy") else ("leakage" if nz == "leakage" else "dmrg+noise")
+        why = "basis" if basis in ("raman", "mixed", "xy", "xy_idle") else ("leakage" if nz == "leakage" else "dmrg+noise")
         occ = runner.to_np(runner.get_at(res, "occupation", 1.0))
         return result(False, sig=f"accepted|{backend}|{solver}|{why}", msg=f"{label}: returned Results (occupation at t=1: {np.round(occ, 5).tolist()}) for a combination the backend cannot emulate", outcome="accepted")
     # accepted: compare with Pulser's dynamics where the result is deterministic
     spec = _spec(basis)
     cfgd = {"dt": 10, "eval": ev}
+    if cfg_init:
+        cfgd["init"] = cfg_init
     tags = ["occupation", "correlation_matrix"] + (["energy"] if nz == "none" else [])
     tol = 1e-6
     if nz == "none" and solver != "dmrg":
@@ -178,7 +193,7 @@ def run_case(case):
         bad = runner.compare_results(res, ref, ev, tol, tol, tags=tags)
         if bad:
             return result(False, sig=f"wrong-dynamics|{backend}|{basis}", msg=f"{label}: " + " ; ".join(bad[:3]), outcome="wrong")
-        return result(True, outcome=["results-ok", rnd(ref.observables(1.0)["occupation"], 4)], nontrivial=basis == "xy")
+        return result(True, outcome=["results-ok", rnd(ref.observables(1.0)["occupation"], 4)], nontrivial=basis in ("xy", "xy_idle"))
     if backend == "sv" and lind and "SPAM" not in nz:
         ops, _, d, _ = noise_ref.collapse_ops_for(seq, nm)
         Ls = R.embed_all(ops, 2, d)
